@@ -28,8 +28,8 @@ func (t *BTree) VerifCheck() error {
 		if !isRoot && len(n.items) < t.minItems() {
 			return fmt.Errorf("node at depth %d holds %d items, minimum is %d", depth, len(n.items), t.minItems())
 		}
-		if isRoot && len(n.items) == 0 {
-			return fmt.Errorf("non-nil root without items")
+		if isRoot && len(n.items) == 0 && len(n.children) > 0 {
+			return fmt.Errorf("empty root that still has children")
 		}
 		if len(n.children) == 0 {
 			if leafDepth == -1 {
